@@ -36,6 +36,10 @@ mod dom_engexpr;
 mod dom_swap;
 mod dom_reuse;
 
+mod svparse;
+mod dom_emit;
+mod dom_translate;
+
 fn main() {
     let args: Vec<String> = std::env::args().skip(1).collect();
     if args.is_empty() {
@@ -82,6 +86,8 @@ fn main() {
         }
         "value" => dom_value::main(&opts),
         "parse" => dom_parse::main(&opts),
+        "emit" => dom_emit::main(&opts),
+        "translate" => dom_translate::main(&opts),
         x => {
             eprintln!("hx: unknown domain {x}");
             2
